@@ -1,3 +1,4 @@
+-- @component syl sylExpected
 import Chewing.Model.Syllable
 import Chewing.Driver.Util
 /-! `syl …` records: the syllable codec (C13). -/
